@@ -198,10 +198,10 @@ Proof.
       apply sks_one, sk1_other; [|reflexivity]. rewrite (lex1_quoted q r Hq), Es. reflexivity.
     + rewrite marksF_one. reflexivity.
   - (* number *)
-    unfold spec_number in Hs. destruct (num_run (is_hex_prefix s) false s) as [run r0] eqn:En.
+    unfold spec_number in Hs. destruct (num_split s) as [run r0] eqn:En.
     destruct (spec_numeral run) as [[n d]|] eqn:Ev; [|discriminate Hs]. injection Hs as <- <-.
     exists (map plain run). split; [|rewrite marksF_plain; reflexivity].
-    rewrite (num_run_split _ _ _ _ _ En). apply sks_okrun. eapply numeral_okrun, Ev.
+    rewrite (num_split_split _ _ _ En). apply sks_okrun. eapply numeral_okrun, Ev.
   - (* name / keyword *)
     exists (map plain a). split.
     + rewrite (LuaLexFacts.span_split _ _ _ _ Hs). apply sks_unspecial.
